@@ -35,7 +35,7 @@ def run_case(params, prefix):
         # attempts of the faulty job in its faulty phase (schedule/transfer failures happen before the command runs)
         if f is not None:
             attempts = run_.counts.get((f["job"], f["phase"]), 0)
-            if attempts > limit and not _recov.sibling_failures(run_):
+            if attempts > limit:
                 fails.append((base + "|too-many-attempts", f"{f['job']} attempted its {f['phase']} phase {attempts} times, retry limit {limit}"))
         nfail = f["count"] if f else 0
         collateral = [x for x in run_.failure_log if x[2].startswith(("collateral", "missing-input"))]
@@ -48,6 +48,13 @@ def run_case(params, prefix):
             bad = {n: s for n, s in res["statuses"].items() if not s[1]}
             if bad:
                 fails.append((base + "|not-terminated", f"steps not terminated after the workflow failed: {bad}"))
+        elif collateral and res.get("raised") and _recov.sibling_failures(run_):
+            # recorded cause: a SECOND step of the same job (its other transfer step, still running in the original workflow)
+            # fails because the first failure's recovery has just rolled the job back; it is handled as another failure of
+            # the job, so one injected failure consumes the retry budget twice
+            fails.append((f"C17|cause=sibling-step-of-a-rolled-back-job-fails-and-consumes-the-retry-budget|prog={params['spec']['prog']}",
+                          f"{f['job']} failed {nfail} time(s) (< limit {limit}) in {f['phase']} but run() raised {res['raised']}; "
+                          f"failures {run_.failure_log}; executions {run_.exec_log}"))
         elif not collateral:
             if res.get("raised"):
                 fails.append((base + "|raised", f"{f['job'] if f else 'no job'} failed {nfail} times (< limit {limit}) but run() raised "
@@ -56,6 +63,12 @@ def run_case(params, prefix):
                 fails.append((base + "|outputs", f"outputs {res.get('ret_content')} != {res['expected']}"))
         if res.get("pending_after_run"):
             fails.append((base + "|pending", f"tasks pending at quiescence: {res['pending_after_run'][:5]}"))
+        if _recov.sibling_failures(run_):
+            # two steps of the failing job failed in this execution (the second one collaterally): whatever the budget
+            # symptom (aborted early, not aborted at the limit, one attempt too many) it is the recorded cause
+            cause = f"C17|cause=sibling-step-of-a-rolled-back-job-fails-and-consumes-the-retry-budget|prog={params['spec']['prog']}"
+            fails = [((cause if k.endswith(("|raised", "|no-raise", "|too-many-attempts")) else k), m + f"; failures {run_.failure_log}")
+                     for k, m in fails]
     return _recov.make_outcome(ex, res, fails)
 
 
